@@ -44,10 +44,10 @@ QUICK = [("build_q", ["GenSubstance", "GenReaction", "Build", "GenFinish"], 120,
          ("inact_q", ["GenReaction", "GenReverse", "Build"], 120, 14),
          ("third_q", ["GenReaction", "Build"], 100, 9),
          ("frac_q", ["GenReaction", "Build"], 80, 4)]
-THOROUGH = [("build_t", [], None, 400), ("inact_t", [], None, 250), ("build3_t", [], None, 150),
-            ("third_t", [], 30000, 300), ("frac_t", [], 30000, 300)]
+THOROUGH = [("build_t", [], 20000, 256), ("inact_t", [], None, 200), ("build3_t", [], None, 100),
+            ("third_t", [], None, 200), ("frac_t", [], None, 100)]
 HIST_QUICK = [("hist_nh_q", ["GenQuery", "GenReorder"], 24)]
-HIST_THOROUGH = [("hist_nh_t", [], 400), ("hist_per_t", [], 400), ("hist_w_t", [], 400), ("hist_nox_t", [], 500)]
+HIST_THOROUGH = [("hist_nh_t", [], 250), ("hist_per_t", [], 250), ("hist_w_t", [], 200), ("hist_nox_t", [], 300)]
 DYN_QUICK = [("dyn_q", ["GenSetState", "GenEulerStep", "GenSafeStep"])]
 DYN_THOROUGH = [("dyn_t", [])]
 
@@ -258,10 +258,14 @@ def replay_case(item):
             # observations are made on the system restricted to its used substances (from TLC)
             red = case["exp"]["red"]
             rin = dict(sysin, subs=red["subs"], rxns=red["rxns"])
-            rsys, obs = cc.build_obj(rin)
+            rng = random.Random("%s-%d" % (sys_ident(sysin), seed))
+            if rng.random() < 0.5:
+                rsys, obs = cc.build_obj(rin)
+            else:   # the same observations on the system held under alias keys, reactions written with
+                    # explicit zero coefficients: rates, ODE system, eliminations, integration keyed by alias
+                rsys, obs, rin = cc.build_obj_alias(rin, zeros=rng.random() < 0.5)
             tr = cc.system_events(rin) + [cc.build_event(obs)]
             if rsys is not None:
-                rng = random.Random("%s-%d" % (sys_ident(sysin), seed))
                 try:
                     evs, skips = deep_events(rsys, rin, red, rng)
                 except core.MachineryFailure:
@@ -579,13 +583,13 @@ def run(ctx):
     jobs += [("Conservation_MC", "Conservation_MC_%s.cfg" % sl, dict(require_actions=a, timeout=1500)) for sl, a in dyn]
     results = cc.tlc_many(ctx, jobs, workers=6 if ctx.quick else 8)
     for (sl, actions, n_cases, n_deep), res in zip(slices, results):
-        run_slice(ctx, sl, res, n_cases, n_deep, titems, n_rej_traces=None if ctx.quick else 6000)
+        run_slice(ctx, sl, res, n_cases, n_deep, titems, n_rej_traces=None if ctx.quick else 2500)
     for (sl, actions, n_cases), res in zip(hists, results[len(slices):]):
         run_hist_slice(ctx, sl, res, n_cases, titems)
     ctx.exhaustive = not ctx.quick
 
     # code -> spec: seeded formula-defined systems beyond the pool
-    n = 100 if ctx.quick else 6000
+    n = 100 if ctx.quick else 2500
     items = []
     for i in range(n):
         names, rx = seeded_system(ctx.rng)
